@@ -242,6 +242,9 @@ func (s *Server) result(argv []string, exec bool) (frame func(mid string) string
 		if strings.HasPrefix(tag, "err") {
 			return func(m string) string { return "-ERR " + tag + "|" + m + "\r\n" }, tag
 		}
+		if strings.HasPrefix(tag, "lod") { // a retryable error reply
+			return func(m string) string { return "-LOADING " + tag + "|" + m + "\r\n" }, tag
+		}
 		if strings.HasPrefix(tag, "arr") {
 			return func(m string) string { return "*2\r\n" + bulk(tag+"|"+m) + ":7\r\n" }, tag
 		}
